@@ -7,6 +7,11 @@ Levels (where the staged value is observed):
   two    the same with two file fields (sources with equal basenames may sit in different fields)
   body   what a python task body receives (it reports a description of its argument)
   shell  what a shell command receives: `ls -1dU <files>` prints the paths it was given
+How the occurrences of one source are written down is a case dimension of its own (`occ`, a cycle of
+representations applied to the file leaves in traversal order): the one shared File/Directory object,
+a fresh but equal object per occurrence (File(p) built again), or the plain path as str / pathlib.Path
+that pydra's coercion turns into its own object.  For the property they all are "the same file
+appearing several times".
 
 Oracle, applied to the staged value next to the files on disk
   * shape, container types, keys and plain leaves unchanged; File stays File, Directory Directory
@@ -40,7 +45,9 @@ RULE = (
     "cases = (observation level job|two|body|shell, CopyMode in {copy, link, hardlink, symlink, any, "
     "leave, link_or_copy, hardlink_or_copy, symlink_or_copy}, collation, nested value of depth <= 2 "
     "over list/tuple/dict with File/Directory leaves from a small pool of sources with colliding "
-    "basenames, repeated objects and plain leaves; hard links possible | simulated other mount). "
+    "basenames, repeated objects and plain leaves; representation of each file occurrence drawn from "
+    "{the shared object, a fresh equal File/Directory object, the path as str, as pathlib.Path}; "
+    "hard links possible | simulated other mount). "
     "Non-trivial = the mode does not allow leaving files in place and the value holds >= 2 file "
     "occurrences; distinct = whole case."
 )
@@ -48,6 +55,9 @@ ASSUMPTIONS = [
     "field types are derived from the value (narrowest annotation); values that pydra's type "
     "coercion rejects or changes are discarded and counted (coercion is C20/C21's subject)",
     "single-path file-sets only, so the collation setting must have no effect",
+    "'a file object appearing several times' is read with fileformats' value semantics (FileSet "
+    "equality = type + paths): equal File objects and path strings/Paths naming the same source "
+    "inside one field are occurrences of the same file object",
     "other-mount behaviour is simulated by patching MountIndentifier.on_same_mount (debug worker)",
     "level shell uses sources with space-free, pairwise different basenames (clash renaming creates "
     "names with spaces, which the shell argv construction splits: C23/C24 territory)",
@@ -55,6 +65,33 @@ ASSUMPTIONS = [
 MODES = ["copy", "link", "hardlink", "symlink", "any", "leave", "link_or_copy", "hardlink_or_copy",
          "symlink_or_copy"]
 BITS = dict(leave=1, hardlink=2, symlink=4, copy=8)
+
+
+OCC = ["shared", "equal", "str", "path"]     # representation of one file-leaf occurrence
+
+
+def build_value(spec, srcroot, objects, nonce, occ=(0,), counter=None):
+    """G.build with the representation of the n-th file-leaf occurrence (traversal order) taken
+    from the cycle `occ`: 0 the shared object of that source, 1 a fresh equal object, 2 the path
+    as str, 3 as pathlib.Path"""
+    counter = [0] if counter is None else counter
+    t = spec[0]
+    if t in ("file", "dir"):
+        obj = G.build(spec, srcroot, objects, nonce)       # creates the source on first use
+        how = OCC[occ[counter[0] % len(occ)] % len(OCC)]
+        counter[0] += 1
+        if how == "shared":
+            return obj
+        if how == "equal":
+            return type(obj)(G.source_path(srcroot, spec))
+        return str(G.source_path(srcroot, spec)) if how == "str" else Path(G.source_path(srcroot, spec))
+    if t == "list":
+        return [build_value(x, srcroot, objects, nonce, occ, counter) for x in spec[1]]
+    if t == "tuple":
+        return tuple(build_value(x, srcroot, objects, nonce, occ, counter) for x in spec[1])
+    if t == "dict":
+        return {k: build_value(x, srcroot, objects, nonce, occ, counter) for k, x in spec[1]}
+    return G.build(spec, srcroot, objects, nonce)
 
 
 def mode_value(name):
@@ -247,7 +284,8 @@ def replay(case):
         nonce = "@" + root.name
         srcroot = root / "in"
         objects: dict = {}
-        values = [G.build(s, srcroot, objects, nonce) for s in specs]
+        occ, counter = list(case.get("occ") or [0]), [0]
+        values = [build_value(s, srcroot, objects, nonce, occ, counter) for s in specs]
         cache = root / "cache"
         names = ["x", "y"][: len(specs)]
         cap: dict = {}
@@ -360,6 +398,15 @@ def classify(case):
         labels.append("basename_clash_between_sources")
     if len(keys) != len(set(keys)):
         labels.append("repeated_object")
+    occ = list(case.get("occ") or [0])
+    hows = [OCC[occ[i % len(occ)] % len(OCC)] for i in range(len(keys))]
+    for h in sorted(set(hows)):
+        labels.append(f"occurrence_as_{h}")
+    reps: dict = {}
+    for k, h in zip(keys, hows):
+        reps.setdefault(k, []).append(h)
+    if any(len(v) > 1 and any(h != "shared" for h in v) for v in reps.values()):
+        labels.append("repeated_source_through_distinct_objects")
     if any(x[0] == "dir" for x in leaves):
         labels.append("has_directory")
     if not leaves:
@@ -385,7 +432,12 @@ def cases(draw):
     else:
         values = draw(G.nested_values(2 if level == "two" else 1))
         mount = draw(st.sampled_from(["same", "same", "same", "other"]))
-    return dict(level=level, mode=mode, collation=coll, values=values, mount=mount)
+    # representation of the file occurrences: half of the cases the shared objects only, else a
+    # cycle of 1-4 representations
+    occ = [0]
+    if draw(st.integers(0, 1)) == 1:
+        occ = draw(st.lists(st.sampled_from([0, 1, 1, 2, 2, 3]), min_size=1, max_size=4))
+    return dict(level=level, mode=mode, collation=coll, values=values, mount=mount, occ=occ)
 
 
 def run(sh):
